@@ -544,16 +544,29 @@ func (nopHandler) HandleXMPP(xmlstream.TokenReadEncoder, *xml.StartElement) erro
 }
 
 type iqResponder struct {
-	r xml.TokenReader
-	c chan xmlstream.TokenReadCloser
+	r    xml.TokenReader
+	c    chan xmlstream.TokenReadCloser
+	once *sync.Once
 }
 
+// Token reads the next token of the response.
+// If reading fails (the stream is not well-formed or has ended) nothing more
+// can ever be read from the response, so it is closed right away: callers
+// such as xmlstream.Iter do not call Close when draining the rest of the
+// response fails, and the serve loop would wait for them forever.
 func (r iqResponder) Token() (xml.Token, error) {
-	return r.r.Token()
+	tok, err := r.r.Token()
+	if err != nil && err != io.EOF {
+		/* #nosec */
+		r.Close()
+	}
+	return tok, err
 }
 
+// Close hands the stream back to the serve loop.
+// Calling it more than once has no effect.
 func (r iqResponder) Close() error {
-	close(r.c)
+	r.once.Do(func() { close(r.c) })
 	return nil
 }
 
@@ -610,8 +623,9 @@ func handleInputStream(s *Session, handler Handler) (err error) {
 			inner := xmlstream.Inner(r)
 			select {
 			case readerChan.c <- iqResponder{
-				r: xmlstream.Wrap(inner, start),
-				c: readerChan.c,
+				r:    xmlstream.Wrap(inner, start),
+				c:    readerChan.c,
+				once: &sync.Once{},
 			}:
 				<-readerChan.c
 			case <-readerChan.ctx.Done():
